@@ -119,6 +119,10 @@ def s_pca_random_case(draw):
         # features that are identically zero in every sample (planar 3-D shapes, background pixels): the mean then has
         # exactly-zero entries without being the zero vector. 0 or 2 extra all-zero columns inserted at drawn positions
         "zero_cols": draw(st.sampled_from([[], [], [], [0, 0], [1, 3], [2, 5]])),
+        # integer-valued samples handed over as integer-typed arrays (pixel counts, quantised coordinates)
+        "int_data": draw(st.sampled_from([None, None, None, "int64", "int64"])),
+        # the unit of the data is arbitrary: the same cloud in micro-units (x 2^-20) or mega-units (x 2^20)
+        "scale_pow": draw(st.sampled_from([0, 0, 0, -20, 20])),
         "kind": kind,
         "side": side,
     }
@@ -136,14 +140,19 @@ def _grey(eigs):
     if top <= 0:
         return False
     rel = eigs / top
-    return bool(np.any((eigs > 1e-20) & (eigs < 1e-8)) or np.any((rel > 1e-20) & (rel < 1e-8)))
+    # relative to the largest eigenvalue only: the floor of the code under test is relative, and the unit of the data
+    # is arbitrary (an absolute window would exclude every micro-unit data set)
+    return bool(np.any((rel > 1e-20) & (rel < 1e-8)))
 
 
-def _run_incremental(kind, x, centre, split):
+def _run_incremental(kind, x, centre, split, int_dtype=None):
     """Builds the initial model on the first chunk and feeds the remaining chunks."""
     edges = np.cumsum([0] + list(split))
     chunks = [x[edges[i] : edges[i + 1]] for i in range(len(split))]
+    as_given = (lambda a: a.astype(int_dtype)) if (int_dtype and kind == "vector") else (lambda a: a.copy())
     if kind == "vector":
+        # (the constructor centres its argument in place by default, which needs a float array: only the increments
+        # are handed over integer-typed)
         m = PCAVectorModel(chunks[0].copy(), centre=centre)
     else:
         tmpl = PointCloud(np.zeros((x.shape[1] // 2, 2)))
@@ -154,7 +163,7 @@ def _run_incremental(kind, x, centre, split):
     zero_mean_corner = centre and bool(np.all(seen.mean(axis=0) == 0))
     for c in chunks[1:]:
         if kind == "vector":
-            m.increment(c.copy(), forgetting_factor=1.0)
+            m.increment(as_given(c), forgetting_factor=1.0)
         else:
             m.increment([tmpl.from_vector(r.copy()) for r in c], forgetting_factor=1.0)
         seen = np.vstack([seen, c])
@@ -209,6 +218,18 @@ def c_pca(case, ctx):
     dc = case["data"]
     x = rp.build_data(dc)
     n, d, r, centre = dc["n"], dc["d"], dc["r"], dc["centre"]
+    sp = int(case.get("scale_pow", 0))
+    if sp and not case.get("int_data"):
+        x = x * 2.0 ** sp  # exact in binary
+        ctx.event("data unit 2^%d" % sp)
+    idt = case.get("int_data")
+    if idt and float(np.abs(x).max()) > 64.0:
+        idt = None  # far-from-origin clouds stay float (fixed point would overflow / lose the spread)
+    if idt:
+        # integer-valued (fixed point with 20 fractional bits: rounding perturbs the constructed spectrum by ~1e-4
+        # relative, far below its separation); the reference below is computed from these very numbers
+        x = np.round(x * 2.0 ** 20)
+        ctx.event("integer-typed samples (%s)" % idt)
     zc = case.get("zero_cols", [])
     if zc:
         # appending all-zero feature columns changes neither the rank nor the spectrum
@@ -255,7 +276,7 @@ def c_pca(case, ctx):
         ctx.event("increments=%d" % len(incs))
         unequal = len(incs) >= 2 and len(set(incs)) > 1
         ctx.event("unequal" if unequal else ("single1" if 1 in incs else "plain"))
-        m, chunks, corner = _run_incremental(kind, x, centre, split)
+        m, chunks, corner = _run_incremental(kind, x, centre, split, idt)
         if corner:
             ctx.event("excluded:exact_zero_mean")
             return
@@ -323,10 +344,18 @@ def graph_case(draw):
     if cls == "directed":
         flips = draw(st.lists(st.booleans(), min_size=len(edges), max_size=len(edges)))
         edges = [[b, a] if f else [a, b] for (a, b), f in zip(edges, flips)]
+    anti = False
+    if cls == "directed" and edges and draw(st.integers(0, 3)) == 0:
+        # a directed graph that lists both orientations of some edges (e.g. a chain given with symmetric edges, a
+        # directed 2-cycle): the batch model defines the precision there, the incremental one has to agree with it
+        dup = draw(st.lists(st.booleans(), min_size=len(edges), max_size=len(edges)))
+        dup[draw(st.integers(0, len(edges) - 1))] = True
+        edges = edges + [[b, a] for (a, b), f in zip(edges, dup) if f]
+        anti = True
     if cls != "tree":
         order = draw(st.permutations(list(range(len(edges)))))
         edges = [edges[i] for i in order]
-    return {"kind": kind, "nv": nv, "edges": edges, "cls": cls}
+    return {"kind": kind, "nv": nv, "edges": edges, "cls": cls, "antiparallel": anti}
 
 
 @st.composite
@@ -475,6 +504,12 @@ def c_gmrf(case, ctx):
     pb = _dense(batch.precision, sparse, ctx, "batch")
     ref = ref_precision(x, g["nv"], g["edges"], f, mode, bias)
     tag = ("%s.%s" % (mode, "sparse" if sparse else "dense")) if has_edges else ("edgeless.%s" % ("sparse" if sparse else "dense"))
+    anti = bool(g.get("antiparallel"))
+    if anti:
+        # with both orientations of an edge listed, what the precision should be is defined by the batch model only
+        # (the sum-over-edges reference is stated for graphs without antiparallel pairs, see C12): incremental == batch
+        ctx.event("antiparallel edge pairs: incremental vs batch only")
+        ref = pb
     ctx.expect(
         close(pb, ref, rtol=1e-8),
         "gmrf.batch_precision_vs_reference." + tag,
